@@ -53,9 +53,7 @@ def begin_case():
     simmanager.install()
     simmanager.reset()
     identity.install()
-    from pipefunc._utils import _cached_load
-
-    _cached_load.cache_clear()  # process-wide lru_cache keyed by (path, mtime, size)
+    reset_process_globals()  # e.g. pipefunc._utils._cached_load, a process-wide lru_cache keyed by (path, mtime, size)
 
 
 def new_sim(exec_tape, root=None, *, preempt=0.3, step_cap=20000, clock=False, fs_kwargs=None, log_events=False):
@@ -81,6 +79,23 @@ def install_default_pool(sim, spec):
 
     sim._saved_pool = run_mod.ProcessPoolExecutor
     run_mod.ProcessPoolExecutor = factory
+
+
+def reset_process_globals():
+    """A new (simulated) process starts with fresh module state: every functools cache found in pipefunc's modules
+    is cleared (memoised pools, loaders, ...).  Objects the harness itself hands over are not touched."""
+    import sys
+
+    for name, mod in list(sys.modules.items()):
+        if mod is None or not (name == "pipefunc" or name.startswith("pipefunc.")):
+            continue
+        for v in list(vars(mod).values()):
+            cc = getattr(v, "cache_clear", None)
+            if callable(cc):
+                try:
+                    cc()
+                except Exception:  # noqa: BLE001
+                    pass
 
 
 def restore_default_pool(sim):
@@ -235,7 +250,8 @@ def check_calls(w, calls, C0, *, exact=True):
 
 
 # ------------------------------------------------------------------ configurations
-STORAGES = ("file_array", "dict", "shared_memory_dict")
+# the shipped backends (twice, so that they stay the bulk) and a user-registered one (sim/userstorage.py)
+STORAGES = ("file_array", "dict", "shared_memory_dict", "file_array", "dict", "shared_memory_dict", "eager_dict")
 
 
 def gen_storage(tape, w, *, persisting_only=False):
